@@ -4,6 +4,8 @@ mod record;
 mod replay;
 #[cfg(feature = "it_deser")]
 mod roundtrip;
+#[cfg(feature = "it_deser")]
+mod wire;
 mod sim;
 #[cfg(feature = "it_threads")]
 mod threads;
